@@ -1,0 +1,12 @@
+//go:build verif
+
+// Contracts for gzv (contract-based deductive verification, /verif). Comment-only file.
+package mon
+
+// C11: the bulk inserter's container hands its whole batch over and starts the next one in a NEW slice (the batch being
+// executed outside the executor's lock must not share storage with the documents inserted meanwhile)
+//@ func (in *dbInserter) RemoveAll
+//@   property C11
+//@   requires in != nil
+//@   ensures len(result.([]any)) == old(len(in.documents)) && len(in.documents) == 0 && in.documents == nil
+//@   modifies in.documents
